@@ -18,6 +18,7 @@ Proof.
   induction 1 as [off|off s r ds Hs Hr IH
                  |off kw words cond o body c r ds1 ds2 Hkw Hwords Hcond Hnt Ho Hc Hb IHb Hr IHr
                  |off pre1 o1 flat c1 post1 semi r ds Hpre1 Ho1 Hflat1 Hc1 Hpost1 Hsemi Hr IH
+                 |off a tail o2 body2 c2 post2 semi2 r ds1 ds2 Hjs Hane Hop Hlast Htail Ho2 Hc2 Hpost2 Hsemi2 Hb2 IHb2 Hr2 IHr2
                  |off pre hd nm_off hend_off o body c r ds1 ds2 Hpre Hhd Ho Hc Hb IHb Hflat Hr IHr].
   - apply balanced_nil.
   - apply balanced_app; [|exact IH]. apply brace_free_balanced, simple_stmt_brace_free, Hs.
@@ -35,6 +36,14 @@ Proof.
     apply balanced_app; [apply balanced_block; try assumption; apply brace_free_balanced, plains_brace_free, Hflat1|].
     apply balanced_app; [|exact IH].
     apply brace_free_balanced, simple_stmt_brace_free, stmt_tail; assumption.
+  - replace (a ++ tail ++ o2 :: body2 ++ c2 :: post2 ++ semi2 :: r)
+      with (a ++ tail ++ (o2 :: body2 ++ [c2]) ++ post2 ++ [semi2] ++ r) by (norm_app; reflexivity).
+    apply balanced_app; [eapply brace_free_balanced, open_prefix_brace_free; exact Hop|].
+    apply balanced_app; [apply brace_free_balanced, cb_tail_brace_free, Htail|].
+    apply balanced_app; [apply balanced_block; assumption|].
+    apply balanced_app; [apply brace_free_balanced, rparens_brace_free, Hpost2|].
+    apply balanced_app; [|exact IHr2].
+    apply nb_balanced. split; [apply semi_not_lbrace | apply semi_not_rbrace]; exact Hsemi2.
   - replace (pre ++ hd ++ o :: body ++ c :: r) with (pre ++ hd ++ (o :: body ++ [c]) ++ r)
       by (norm_app; reflexivity).
     apply balanced_app; [apply brace_free_balanced, prefix_brace_free, (prefix_words_toks l), Hpre|].
@@ -49,6 +58,7 @@ Proof.
   induction 1 as [off|off s r ds Hs Hr IH
                  |off kw words cond o body c r ds1 ds2 Hkw Hwords Hcond Hnt Ho Hc Hb IHb Hr IHr
                  |off pre1 o1 flat c1 post1 semi r ds Hpre1 Ho1 Hflat1 Hc1 Hpost1 Hsemi Hr IH
+                 |off a tail o2 body2 c2 post2 semi2 r ds1 ds2 Hjs Hane Hop Hlast Htail Ho2 Hc2 Hpost2 Hsemi2 Hb2 IHb2 Hr2 IHr2
                  |off pre0 hd nm_off hend_off o body c r ds1 ds2 Hpre Hhd Ho Hc Hb IHb Hflat Hr IHr];
     intros pre post Hlen.
   - constructor.
@@ -64,6 +74,13 @@ Proof.
   - replace (pre ++ (pre1 ++ o1 :: flat ++ c1 :: post1 ++ semi :: r) ++ post)
       with ((pre ++ pre1 ++ o1 :: flat ++ c1 :: post1 ++ [semi]) ++ r ++ post) by (norm_app; reflexivity).
     apply IH; norm_len; lia.
+  - apply Forall_app. split.
+    + replace (pre ++ (a ++ tail ++ o2 :: body2 ++ c2 :: post2 ++ semi2 :: r) ++ post)
+        with ((pre ++ a ++ tail ++ [o2]) ++ body2 ++ (c2 :: post2 ++ semi2 :: r ++ post)) by (norm_app; reflexivity).
+      apply IHb2; norm_len; lia.
+    + replace (pre ++ (a ++ tail ++ o2 :: body2 ++ c2 :: post2 ++ semi2 :: r) ++ post)
+        with ((pre ++ a ++ tail ++ o2 :: body2 ++ c2 :: post2 ++ [semi2]) ++ r ++ post) by (norm_app; reflexivity).
+      apply IHr2; norm_len; lia.
   - destruct (fhead_offsets _ _ _ _ Hhd) as [Hn Hh].
     constructor; [|apply Forall_app; split].
     + unfold shapeP. cbn [fd_start fd_name fd_hend fd_open fd_close].
@@ -99,6 +116,7 @@ Proof.
   induction 1 as [off|off s r ds Hs Hr IH
                  |off kw words cond o body c r ds1 ds2 Hkw Hwords Hcond Hnt Ho Hc Hb IHb Hr IHr
                  |off pre1 o1 flat c1 post1 semi r ds Hpre1 Ho1 Hflat1 Hc1 Hpost1 Hsemi Hr IH
+                 |off a tail o2 body2 c2 post2 semi2 r ds1 ds2 Hjs Hane Hop Hlast Htail Ho2 Hc2 Hpost2 Hsemi2 Hb2 IHb2 Hr2 IHr2
                  |off pre0 hd nm_off hend_off o body c r ds1 ds2 Hpre Hhd Ho Hc Hb IHb Hflat Hr IHr].
   - split; constructor.
   - destruct IH as [I1 I2]. split; [|exact I2].
@@ -110,6 +128,11 @@ Proof.
       unfold within_of in Hx, Hy. unfold ord, nested_in, after. lia.
   - destruct IH as [I1 I2]. split; [|exact I2].
     eapply Forall_impl; [|exact I1]. intros d. apply within_of_weaken; norm_len; lia.
+  - destruct IHb2 as [B1 B2]. destruct IHr2 as [R1 R2]. split.
+    + apply Forall_app. split; (eapply Forall_impl; [|eassumption]); intros d; apply within_of_weaken; norm_len; lia.
+    + apply StronglySorted_app; [assumption | assumption|].
+      intros x y Hx Hy. rewrite Forall_forall in B1, R1. apply B1 in Hx. apply R1 in Hy.
+      unfold within_of in Hx, Hy. unfold ord, nested_in, after. lia.
   - destruct IHb as [B1 B2]. destruct IHr as [R1 R2].
     destruct (fhead_offsets _ _ _ _ Hhd) as [Hn Hh]. split.
     + constructor.
@@ -132,6 +155,7 @@ Proof.
   induction 1 as [off|off s r ds Hs Hr IH
                  |off kw words cond o body c r ds1 ds2 Hkw Hwords Hcond Hnt Ho Hc Hb IHb Hr IHr
                  |off pre1 o1 flat c1 post1 semi r ds Hpre1 Ho1 Hflat1 Hc1 Hpost1 Hsemi Hr IH
+                 |off a tail o2 body2 c2 post2 semi2 r ds1 ds2 Hjs Hane Hop Hlast Htail Ho2 Hc2 Hpost2 Hsemi2 Hb2 IHb2 Hr2 IHr2
                  |off pre0 hd nm_off hend_off o body c r ds1 ds2 Hpre Hhd Ho Hc Hb IHb Hflat Hr IHr].
   - constructor.
   - exact IH.
@@ -140,6 +164,10 @@ Proof.
     rewrite Forall_forall in B1, R1. apply B1 in Hx. apply R1 in Hy.
     unfold within_of in Hx, Hy. unfold after_ord, after. lia.
   - exact IH.
+  - apply StronglySorted_app; [assumption | assumption|].
+    intros x y Hx Hy. destruct (items_of_order _ _ _ _ Hb2) as [B1 _]. destruct (items_of_order _ _ _ _ Hr2) as [R1 _].
+    rewrite Forall_forall in B1, R1. apply B1 in Hx. apply R1 in Hy.
+    unfold within_of in Hx, Hy. unfold after_ord, after. lia.
   - rewrite (Hflat Hl). cbn [app]. constructor; [exact IHr|].
     destruct (items_of_order _ _ _ _ Hr) as [R1 _]. apply Forall_forall. intros x Hx.
     rewrite Forall_forall in R1. apply R1 in Hx. unfold within_of in Hx. unfold after_ord, after.
